@@ -291,11 +291,30 @@ def f_shape_mismatch(it, g, pos, spell):
         if it.shape != "tuple" or not it.fields:
             return None
         zn = _fresh(g)
-        nm = g.pick(["owned_into", "from_owned", "ref_into", "try_from_ref"])
+        form = g.pick(["no_instruction", "no_instruction", "action_only_into", "empty_from"])
+        if form == "action_only_into":
+            nm = g.pick(["owned_into", "ref_into", "owned_into_existing", "ref_into_existing"])
+        elif form == "empty_from":
+            nm = g.pick(["from_owned", "from_ref"])
+        else:
+            nm = g.pick(["owned_into", "from_owned", "ref_into", "try_from_ref"])
         fal = nm.startswith("try")
         _ins(it.attrs, pos, Instr(nm, "trait", ty=zn, hint="{}", err="Em" if fal else None, params=[], spelling=spell))
         f = Field(None, "i32")
         i = _ins(it.fields, pos, f)
+        if form != "no_instruction":
+            # every other member names its field for the new counterpart: the injected member is the only thing wrong
+            for of in it.fields:
+                if of is not f:
+                    of.attrs.append(Instr("map", "map", container=zn, member=f"n{g.mark()}", action=None))
+        if form == "action_only_into":
+            # an expression alone does not name the counterpart's field (o2o-impl/src/tests.rs: incomplete_field_attr_instruction)
+            mi = g.pick(["into", "into", nm])
+            f.attrs.append(Instr(mi, "map", container=None, member=None, action=f"k{g.mark()}()", braced=True, spelling=spell))
+            return Fault("shape_mismatch", "struct/action_only_into", [f"Member trait instruction #[{mi}(...)] for member {i} should specify corresponding field name of the {zn}"])
+        if form == "empty_from":
+            f.attrs.append(Instr("from", "map", container=None, member=None, action=None, parens=True, spelling=spell))
+            return Fault("shape_mismatch", "struct/empty_from", [f"Member trait instruction #[from(...)] for member {i} should specify corresponding field name of the {zn} or an action"])
         return Fault("shape_mismatch", "struct", [re.compile(r"^Member " + str(i) + r" should have member trait instruction with field name")])
     else:
         v = Variant(f"Vm{g.mark()}", "tuple", [Field(None, "i32")], [Instr("type_hint", "type_hint", container=None, hint="{}", spelling=spell)])
